@@ -5,6 +5,7 @@ package simnet
 
 import (
 	"fmt"
+	"os"
 	"hash/fnv"
 	"net"
 	"runtime"
@@ -263,8 +264,19 @@ func (n *Net) countL(name string, d int) { n.Counters[name] += d }
 // the log state is only touched under logMu.
 var logMu sync.Mutex
 
+// TraceG appends the calling goroutine's id to every log line (debugging aid).
+var TraceG = os.Getenv("VERIF_TRACE_G") != ""
+
 func (n *Net) Logf(format string, a ...any) {
 	s := fmt.Sprintf(format, a...)
+	if TraceG {
+		var buf [64]byte
+		k := runtime.Stack(buf[:], false)
+		f := strings.Fields(string(buf[:k]))
+		if len(f) > 1 {
+			s += " g" + f[1]
+		}
+	}
 	t := time.Since(n.start)
 	logMu.Lock()
 	h := n.logHash
